@@ -3,9 +3,9 @@
    visitor loops (push per element; overwrite / truncate / append in place) are not modelled in Coq:
    they are tied by the harness run with a recording serializer and scripted SeqAccess. *)
 From Coq Require Import ZArith List String Bool Lia.
-From MV Require Import Ast Eval Scalar Machine EquivDefs EquivSerde Model.
+From MV Require Import Ast Eval Scalar Machine SerdeSeq EquivDefs EquivSerde Prims EquivSerdeSeq Model.
 From MV.Gen Require Import AstGen.
-From MV.Proofs Require Import Arith.
+From MV.Proofs Require Import Arith Logic Prim View OpsLocal Guards Grow CapHistory Drops Retain Sentinel Core Refine Clone Extend SerdeSeq SerdeSource.
 Import ListNotations.
 Open Scope Z_scope.
 
@@ -56,3 +56,30 @@ Example C19_inplace_reservation_examples :
 Proof. intros cfg. repeat split; reflexivity. Qed.
 Print Assumptions C19_upfront_reservation_of_the_source_is_at_most_1024.
 Print Assumptions C19_inplace_reservation_is_hint_minus_len.
+
+(* END TO END for `Deserialize for MiniVec` (VecVisitor::visit_seq): the REGENERATED body -- the
+   capped reservation, the `while let Some(value) = seq.next_element()?` loop, `Ok(values)` -- evaluated
+   by the IR semantics in a world whose input is ANY script of answers (elements, end, an element-level
+   error anywhere) with ANY claimed size hint: the result is Ok(a NEW vector holding exactly the elements
+   the input yielded before its end, in order, each held once) or the input's error; nothing that existed
+   before is touched; the claimed hint has no influence on the contents.  Tie: EquivSerdeSeq.v (induction
+   over the loop's fuel); theorem: Proofs/SerdeSeq.v; composed in Proofs/SerdeSource.v. *)
+Theorem C19_the_source_of_deserialize_yields_exactly_the_input :
+  forall cfg ncap, cfg_ok cfg -> policy_ok ncap -> needs_drop cfg = true ->
+  forall h sc s F,
+  (match h with Some n => 0 <= n < W64 | None => True end) ->
+  (S (List.length sc) <= F)%nat ->
+  let '(n, p) := yields sc in
+  match projQ (run_visit cfg ncap h (FUEL + F) sc s) with
+  | (Norm r, s') =>
+      (forall e, e < next_elem s -> ledger s' e = ledger s e) /\
+      if p then r = VCtor "Err" [VUnit]
+      else r = VCtor "Ok" [VObj (List.length (vecs s))] /\
+           vabs cfg s' (List.length (vecs s)) (zseq (next_elem s) n) /\
+           next_elem s' = next_elem s + Z.of_nat n
+  | (Panic, s') => forall e, e < next_elem s -> ledger s' e = ledger s e
+  | (Fail FAbort, _) | (Fail (FAllocAbort _ _), _) => True
+  | _ => False
+  end.
+Proof. exact visit_seq_source. Qed.
+Print Assumptions C19_the_source_of_deserialize_yields_exactly_the_input.
